@@ -438,6 +438,12 @@ func (s *Spec) Candidates(t *Type, loc string, depth int) []any {
 				add(Arr{valid[0], iv})
 			}
 		}
+		if s.deep() {
+			// deep families: every valid element candidate once, as a one-element array
+			for _, v := range valid {
+				add(Arr{v})
+			}
+		}
 		for _, v := range e.Vs {
 			for _, b := range []*int{v.MinLen, v.MaxLen} {
 				if b == nil || len(valid) == 0 {
@@ -472,6 +478,12 @@ func (s *Spec) Candidates(t *Type, loc string, depth int) []any {
 			}
 			for _, v := range s.pickInvalid(e.Elem, ie, 2) {
 				add(MapV{{vk[0], v}})
+			}
+			if s.deep() {
+				// deep families: every valid element candidate once, as a one-entry map
+				for _, v := range ve {
+					add(MapV{{vk[0], v}})
+				}
 			}
 			for _, v := range e.Vs {
 				for _, b := range []*int{v.MinLen, v.MaxLen} {
